@@ -11,8 +11,16 @@
 //!   model driver), fed to the real `Trie::new`;
 //! * ORACLE = the C11 statement itself evaluated with a reference map on the real code
 //!   (`!oracle C11 new …` on any deviation), including an independent parser of the documented format;
-//! * a separate, counted stream of entry sets beyond the format's limits (a leaf of ≥ 64 KiB,
-//!   ≥ 65 536 children): `write` has to fail loudly or the file has to read back exactly (finding F13).
+//! * a separate, counted stream of entry sets beyond the format's limits (a leaf of ≥ 64 KiB):
+//!   `write` has to fail loudly or the file has to read back exactly (finding F13);
+//! * written files with ONE node syllable overwritten by a value `Syllable::try_from` rejects (since the repair
+//!   of C13's F47 `Trie::new` has to refuse them: `codec about … => err`, the model's `openTrie` agrees) and,
+//!   as a control, by another valid code (the file still opens).
+//!
+//! Keys are `&[Syllable]`: since the repair of F47 a `Syllable` is a valid code (initial ≤ 21, medial ≤ 3,
+//! rime ≤ 13, tone ≤ 5, marker bit clear; or the empty pattern 0x8000), so the generators draw valid codes only
+//! (`valid`), boundary values included.  A node can therefore have at most 7392 children: the 16-bit child count
+//! cannot overflow through the typed API any more (the thorough tier builds the full fan-out).
 use chewing::dictionary::{
     Dictionary, DictionaryBuilder, DictionaryInfo, LookupStrategy, Phrase, Trie, TrieBuilder,
 };
@@ -43,7 +51,42 @@ struct Case {
 }
 
 fn syls(key: &[u16]) -> Vec<Syllable> {
-    key.iter().map(|c| Syllable::try_from(*c).unwrap()).collect()
+    key.iter()
+        .map(|c| Syllable::try_from(*c).unwrap_or_else(|_| panic!("generator bug: {:#06x} is not a Syllable", c)))
+        .collect()
+}
+
+/// the codes of `Syllable` values (independent of the code under test): the empty pattern, or marker bit clear,
+/// not zero, every component index within its table
+fn valid(c: u16) -> bool {
+    c == 0x8000
+        || (c != 0 && c & 0x8000 == 0 && (c >> 9) & 0x3F <= 21 && (c >> 7) & 3 <= 3 && (c >> 3) & 0xF <= 13 && c & 7 <= 5)
+}
+
+/// number of valid codes with the marker bit clear: 22 * 4 * 14 * 6 tuples without the all-zero one
+const N_VALID: u32 = 22 * 4 * 14 * 6 - 1;
+
+/// the `n`-th valid code, 1 ≤ n ≤ N_VALID, in numeric order of (initial, medial, rime, tone)
+fn nth_valid(n: u32) -> u16 {
+    assert!((1..=N_VALID).contains(&n));
+    enc((n / 336) as u16, (n / 84 % 4) as u16, (n / 6 % 14) as u16, (n % 6) as u16)
+}
+
+/// the numerically next / previous valid code (wrapping)
+fn next_valid(c: u16) -> u16 {
+    let mut c = c.wrapping_add(1);
+    while !valid(c) {
+        c = c.wrapping_add(1);
+    }
+    c
+}
+
+fn prev_valid(c: u16) -> u16 {
+    let mut c = c.wrapping_sub(1);
+    while !valid(c) {
+        c = c.wrapping_sub(1);
+    }
+    c
 }
 
 fn to_phrase(p: &Ph) -> Phrase {
@@ -329,6 +372,8 @@ fn uint_value(c: &[u8], max_bytes: usize, at: usize) -> Result<u64, String> {
 struct Parsed {
     info: [String; 5],
     index: Vec<(u32, u16, u16)>,
+    /// offset of the first index record in the file
+    index_start: usize,
     data: Vec<u8>,
 }
 
@@ -388,7 +433,7 @@ fn parse_document(b: &[u8]) -> Result<Parsed, String> {
     if ps.end != doc.end {
         return Err("document has extra fields".into());
     }
-    Ok(Parsed { info, index, data: b[ps.start..ps.end].to_vec() })
+    Ok(Parsed { info, index, index_start: ix.start, data: b[ps.start..ps.end].to_vec() })
 }
 
 /// `SEQUENCE OF Phrase` on a slice
@@ -575,7 +620,8 @@ fn enc(i: u16, m: u16, r: u16, t: u16) -> u16 {
 }
 
 /// a small pool of syllables so that keys share prefixes: full syllables, partial ones
-/// (which are prefixes of the full ones) and arbitrary non-zero codes
+/// (which are prefixes of the full ones) and boundary codes (the largest index of every component, tone index 5,
+/// the code 1, the empty pattern 0x8000) — valid codes only: a key is a `&[Syllable]`
 fn syl_pool(rng: &mut Rng) -> Vec<u16> {
     let mut v = vec![];
     let n = 2 + rng.below(5);
@@ -583,7 +629,7 @@ fn syl_pool(rng: &mut Rng) -> Vec<u16> {
         let i = rng.below(22) as u16;
         let m = rng.below(4) as u16;
         let r = rng.below(14) as u16;
-        let t = rng.below(5) as u16;
+        let t = if rng.chance(1, 10) { 5 } else { rng.below(5) as u16 };
         let c = enc(i, m, r, t);
         if c != 0 {
             v.push(c);
@@ -595,13 +641,15 @@ fn syl_pool(rng: &mut Rng) -> Vec<u16> {
         if rng.chance(1, 3) && enc(i, 0, 0, 0) != 0 {
             v.push(enc(i, 0, 0, 0));
         }
-        if rng.chance(1, 3) && enc(i, m, r, (t + 1) % 5) != 0 {
-            v.push(enc(i, m, r, (t + 1) % 5));
+        if rng.chance(1, 3) && enc(i, m, r, (t + 1) % 6) != 0 {
+            v.push(enc(i, m, r, (t + 1) % 6));
         }
     }
     if rng.chance(1, 4) {
-        v.push(*rng.pick(&[1u16, 0x8000, 0xFFFF, 0x7FFF, 0x00FF, 0x0100, 0x2C00, 5]));
+        v.push(*rng.pick(&[1u16, 0x8000, enc(21, 3, 13, 5), enc(21, 3, 13, 4), enc(21, 0, 0, 0), enc(0, 3, 0, 0),
+            enc(0, 0, 13, 0), 0x0100, 5, enc(1, 0, 0, 0), enc(21, 0, 13, 5)]));
     }
+    debug_assert!(v.iter().all(|c| valid(*c)));
     if v.is_empty() {
         v.push(enc(1, 0, 1, 0));
     }
@@ -735,9 +783,10 @@ fn gen_big_leaf(rng: &mut Rng) -> Case {
     Case { info: Default::default(), ents }
 }
 
-/// distinct non-zero syllable codes in a scrambled order (211 is coprime to the prime 65521)
+/// distinct syllable codes in a scrambled order, for i < N_VALID = 7391 = 19 * 389 (211 is coprime to it)
 fn scrambled(i: u32) -> u16 {
-    (i * 211 % 65521 + 1) as u16
+    assert!(i < N_VALID);
+    nth_valid(i * 211 % N_VALID + 1)
 }
 
 fn cjk3(i: u32) -> String {
@@ -933,10 +982,10 @@ fn query_keys(rng: &mut Rng, case: &Case, rm: &BTreeMap<Vec<u16>, Vec<Ph>>) -> V
             extra.push(c);
             let mut c = k.clone();
             let i = rng.below(k.len() as u64) as usize;
-            c[i] = c[i].wrapping_add(1).max(1); // numerically adjacent syllable
+            c[i] = next_valid(c[i]); // numerically adjacent syllable
             extra.push(c);
             let mut c = k.clone();
-            c[i] = c[i].wrapping_sub(1).max(1);
+            c[i] = prev_valid(c[i]);
             extra.push(c);
         }
         let mut c = k.clone();
@@ -976,7 +1025,10 @@ fn fuzzy_queries(rng: &mut Rng, rm: &BTreeMap<Vec<u16>, Vec<Ph>>) -> Vec<Vec<u16
         // a query that fails in one position
         let mut q: Vec<u16> = k.to_vec();
         let i = rng.below(k.len() as u64) as usize;
-        q[i] = (q[i] ^ 0x0200).max(1);
+        q[i] = q[i] ^ 0x0200; // another initial (0 <-> 1, …, 20 <-> 21)
+        if !valid(q[i]) {
+            q[i] = 1;
+        }
         if !qs.contains(&q) {
             qs.push(q);
         }
@@ -1252,18 +1304,21 @@ fn oversize_cases(thorough: bool) -> Vec<(String, Case, bool)> {
         false,
     ));
     if thorough {
-        // 65 536 children under one node (child_len as u16 = 0)
-        let ents = (1..=65535u32)
-            .map(|c| Ent { key: vec![enc(1, 0, 1, 0), c as u16], ph: Ph { text: "測試".into(), freq: c, ts: None } })
+        // the largest fan-out the typed API can produce since the repair of F47: every `Syllable` value (7391 codes
+        // and the empty pattern) as a child of one node, next to a leaf — 7393 queue entries, far below the 16-bit
+        // child count (which therefore cannot overflow any more: 65 536 distinct `Syllable`s do not exist)
+        let ents = (0..N_VALID)
+            .map(|c| Ent { key: vec![enc(1, 0, 1, 0), scrambled(c)], ph: Ph { text: "測試".into(), freq: c, ts: None } })
+            .chain(std::iter::once(Ent { key: vec![enc(1, 0, 1, 0), 0x8000], ph: Ph { text: "空白".into(), freq: 2, ts: None } }))
             .chain(std::iter::once(Ent { key: vec![enc(1, 0, 1, 0)], ph: Ph { text: "八".into(), freq: 1, ts: None } }))
             .collect();
-        v.push(("65535 children and a leaf under one node".to_string(), Case { info: Default::default(), ents }, false));
-        // the largest fan-out the format can hold: 65 535 children, no leaf; 131 072 records, so child_begin needs
-        // more than 16 bits
-        let ents = (1..=65535u32)
-            .map(|c| Ent { key: vec![enc(1, 0, 1, 0), scrambled(c - 1)], ph: Ph { text: "測試".into(), freq: c, ts: None } })
+        v.push(("every Syllable value (7392) as a child of one node, and a leaf".to_string(), Case { info: Default::default(), ents }, true));
+        // ten such hubs: 73 910 children, 147 832 index records, so child_begin needs more than 16 bits
+        let ents = (0..10u32)
+            .flat_map(|h| (0..N_VALID).map(move |c| Ent { key: vec![scrambled(h * 700 + 3), scrambled(c)],
+                ph: Ph { text: "測試".into(), freq: c + h, ts: None } }))
             .collect();
-        v.push(("65535 children under one node, 131072 index records".to_string(), Case { info: Default::default(), ents }, true));
+        v.push(("10 nodes with 7391 children each, 147832 index records".to_string(), Case { info: Default::default(), ents }, true));
     }
     v
 }
@@ -1459,6 +1514,91 @@ fn main() {
         }
     }
 
+    // ---- a node syllable that is not a `Syllable` (since the repair of C13's F47 `Trie::new` refuses the file)
+    let mut tamper_invalid = 0u64;
+    let mut tamper_rejected = 0u64;
+    let mut tamper_valid = 0u64;
+    let mut tamper_valid_opened = 0u64;
+    {
+        const BAD: &[u16] = &[0x6a07, 0x8208, 0x020e, 0xffff, 0x8001, 0x2c00, 0x0006, 0x0070, 0xc000, 0x7fff];
+        let step = if thorough { 3 } else { 5 };
+        let mut k = 0usize;
+        for (i, case) in cases.iter().enumerate().take(first_shape) {
+            if i % step != step / 2 + 1 {
+                continue;
+            }
+            let bytes = match build(case) {
+                Ok(b) => b,
+                Err(_) => continue,
+            };
+            let p = match parse_document(&bytes) {
+                Ok(p) => p,
+                Err(_) => continue,
+            };
+            let nodes: Vec<usize> = (1..p.index.len()).filter(|j| p.index[*j].2 != 0).collect();
+            if nodes.is_empty() {
+                continue;
+            }
+            let j = *rng.pick(&nodes);
+            let at = p.index_start + j * 8 + 6;
+            // (a) an invalid code: the listed ones in turn, then random invalid values
+            let bad = if k < 2 * BAD.len() {
+                BAD[k % BAD.len()]
+            } else {
+                let mut c = rng.next() as u16;
+                while valid(c) || c == 0 {
+                    c = rng.next() as u16;
+                }
+                c
+            };
+            k += 1;
+            let mut b2 = bytes.clone();
+            b2[at..at + 2].copy_from_slice(&bad.to_be_bytes());
+            tamper_invalid += 1;
+            match open_real(&b2) {
+                None => {
+                    tamper_rejected += 1;
+                    out.rec(&format!("codec about {} => err", hbytes(&b2)));
+                }
+                Some(r) => {
+                    let about = r.about();
+                    out.rec(&format!("codec about {} => {}", hbytes(&b2), about.iter().map(|s| hx(s)).collect::<Vec<_>>().join(" ")));
+                    fail(&mut out, &mut st, &format!("Trie::new accepts an index whose record {} has the syllable field {:#06x}, which is not a Syllable \
+                        (entries() would panic on it)", j, bad), case);
+                }
+            }
+            // (b) control: another VALID code in the same place — the file still opens, entries() does not panic
+            let other = if rng.chance(1, 2) { next_valid(p.index[j].2) } else { nth_valid(1 + rng.below(N_VALID as u64) as u32) };
+            let mut b3 = bytes.clone();
+            b3[at..at + 2].copy_from_slice(&other.to_be_bytes());
+            tamper_valid += 1;
+            match open_real(&b3) {
+                None => {
+                    out.rec(&format!("codec about {} => err", hbytes(&b3)));
+                    fail(&mut out, &mut st, &format!("Trie::new rejects an index that differs from a written one only in the (valid) syllable {:#06x} of record {}", other, j), case);
+                }
+                Some(r) => {
+                    tamper_valid_opened += 1;
+                    let about = r.about();
+                    out.rec(&format!("codec about {} => {}", hbytes(&b3), about.iter().map(|s| hx(s)).collect::<Vec<_>>().join(" ")));
+                    match r.entries() {
+                        Ok(es) => {
+                            let mut s = format!("codec entries {} => ok", hbytes(&b3));
+                            for (k, p) in &es {
+                                s.push_str(&format!(" {}={}", key_s(k), ph_s(p)));
+                            }
+                            out.rec(&s);
+                        }
+                        Err(_) => {
+                            out.rec(&format!("codec entries {} => panic", hbytes(&b3)));
+                            fail(&mut out, &mut st, "entries() panics on a file Trie::new accepted", case);
+                        }
+                    }
+                }
+            }
+        }
+    }
+
     // ---- beyond the limits (separate, counted)
     let mut over = BTreeMap::new();
     for (label, case, fits) in oversize_cases(thorough) {
@@ -1475,6 +1615,24 @@ fn main() {
         }
     }
 
+    // realised syllable codes of the keys
+    {
+        let mut codes: Vec<u16> = cases.iter().flat_map(|c| c.ents.iter().flat_map(|e| e.key.iter().copied())).collect();
+        out.stat("key_syllables", codes.len());
+        out.stat("key_syllables_with_tone_index_5", codes.iter().filter(|c| **c != 0x8000 && **c & 7 == 5).count());
+        out.stat("key_syllables_empty_pattern_0x8000", codes.iter().filter(|c| **c == 0x8000).count());
+        out.stat("key_syllables_with_a_maximal_component", codes.iter().filter(|c| **c != 0x8000
+            && ((**c >> 9) == 21 || (**c >> 7) & 3 == 3 || (**c >> 3) & 0xF == 13)).count());
+        out.stat("key_syllables_all_components_maximal", codes.iter().filter(|c| **c == enc(21, 3, 13, 5)).count());
+        out.stat("key_syllables_invalid", codes.iter().filter(|c| !valid(**c)).count());
+        codes.sort();
+        codes.dedup();
+        out.stat("distinct_syllable_codes", codes.len());
+    }
+    out.stat("files_with_an_invalid_node_syllable", tamper_invalid);
+    out.stat("files_with_an_invalid_node_syllable_rejected", tamper_rejected);
+    out.stat("files_with_another_valid_node_syllable", tamper_valid);
+    out.stat("files_with_another_valid_node_syllable_opened", tamper_valid_opened);
     out.stat("files", st.files);
     out.stat("entries_inserted", st.entries);
     out.stat("reinserted_phrases", st.reinserts);
